@@ -350,7 +350,31 @@ def run(ctx, config='rel-all'):
                 check('retain', 'the move happens exactly for kept chars with del_bytes > 0', ('lt', C(0), DELT) in fs and any(f[0] == 'true' and 'call_mut' in repr(f[1]) or (f[0] == 'true' and '<callable>' in repr(f[1])) for f in fs))
             else:
                 check('retain', 'one memmove per kept char', False)
-    ctx.floor('O4', n4[0], 25, 'byte-shift formula clauses')
+    b = string_method(db, 'from_str_in')
+    if b:
+        I, r = arena.run_fn(ctx, b['id'], config)
+        wc = own_calls(r, '::with_capacity_in')
+        cp = [e for e in r.events if len(e.stack) == 1 and e.kind == 'copy']
+        sl = own_calls(r, '::set_len')
+        n_ = app('len', SELF)
+        okv = len(wc) == 1 and wc[0].args[0] == n_ and len(cp) == 1 and cp[0].callee == 'copy_nonoverlapping' and cp[0].args[0] == SELF and cp[0].args[2] == n_ and len(sl) == 1 and sl[0].args[1] == n_ \
+            and r.events.index(cp[0]) < r.events.index(sl[0])
+        check('from_str_in', 'with_capacity_in(s.len()), memcpy of s.len() bytes from s, then set_len(s.len())', okv, '', b.get('span'))
+    gd = [x for x in db.fn_bodies() if 'retain::SetLenOnDrop' in x['id'] and x['meta'].get('name') == 'drop' and 'string::String' in x['id']]
+    if not gd:
+        ctx.anchor_missing('O4', 'String::retain::SetLenOnDrop::drop')
+    else:
+        I, r = arena.run_fn(ctx, gd[0]['id'], config)
+        sl = own_calls(r, '::set_len')
+        fld = lambda n: ('load', ('fld', ('deref', SELF), [f for f in (x for x in subterms(sl[0].args[1]) if isinstance(x, tuple) and x and x[0] == 'fld') if f[2].endswith('.' + n)][0][2]), 0) if sl else None
+        okv = False
+        if len(sl) == 1:
+            try:
+                okv = sl[0].args[1] in (('app', 'wsub', fld('idx'), fld('del_bytes')), app('sub', fld('idx'), fld('del_bytes')))
+            except IndexError:
+                okv = False
+        check('retain', 'the guard restores len := idx - del_bytes (also when the predicate panics)', okv, '', gd[0].get('span'))
+    ctx.floor('O4', n4[0], 27, 'byte-shift formula clauses')
 
 
 def find_string_agg(t, depth=0):
